@@ -5,14 +5,11 @@ package sigen
 // A node at distance 0 from the root is the root. Leaves at distance <= 1
 // range over Outer; leaves at distance 2 over Inner; leaves at distance >= 3
 // over Deepest (Inner if Deepest is empty). Tuples and structs have width
-// 0..Width. Every struct at distance k from the root is called
+// MinWidth..Width. Every struct at distance k from the root is called
 // StructNames[k%len] and its members FieldNames[0..width-1].
-//
-// ShallowPair, when > 0, restricts the binary products AT THE ROOT (map
-// key/value, 2-tuples, 2-structs) to pairs in which at least one component
-// has depth <= ShallowPair-1... see Each.
 type Gen struct {
 	Width       int
+	MinWidth    int
 	Outer       string
 	Inner       string
 	Deepest     string
@@ -89,7 +86,7 @@ func (g Gen) composites(kids []*T, dist int, shallow int, f func(*T)) {
 	// tuples and structs of width 0..Width
 	var rec func(m []*T)
 	rec = func(m []*T) {
-		if ok(m) {
+		if ok(m) && len(m) >= g.MinWidth {
 			mm := append([]*T(nil), m...)
 			f(Tu(mm...))
 			f(St(g.sname(dist), g.FieldNames[:len(mm)], mm...))
